@@ -156,3 +156,113 @@ def state_method_replayer(ctx, world, method, sref, h0, arg_vals, exits, result_
         info["reproduced"] = (not bad) and (obl.exit is None or obl.exit is e)
         return info
     return rp
+
+
+# ---------------------------------------------------------------------------------------------- builder
+class CaptureWriter:
+    """a BaseWriter that records the bytes it is given (registered through the public add_writer)"""
+    def __new__(cls):
+        from gscrib.writers.base_writer import BaseWriter
+        class _Cap(BaseWriter):
+            def __init__(self): self.chunks = []
+            def connect(self): return self
+            def disconnect(self, wait=True): pass
+            def write(self, statement): self.chunks.append(bytes(statement))
+        return _Cap()
+
+
+def realize_builder(world, model, heap, g, info, decimals=12):
+    import numpy as np
+    from gscrib import GCodeBuilder
+    b = GCodeBuilder()
+    for w in list(b._writers): b.remove_writer(w)
+    cap = CaptureWriter(); b.add_writer(cap)
+    b._formatter.set_decimal_places(decimals)
+    b._formatter.set_line_endings("\\n")
+    obj = heap[g.oid]
+    params = realize_params(world, model, heap, obj["_current_params"])
+    b._current_params = params
+    b._state = realize_state(world, model, heap, obj["_state"], params=params)
+    b._current_axes = conc(world, model, obj["_current_axes"], heap)
+    b._distance_mode = conc(world, model, obj["_distance_mode"], heap)
+    b._direction = conc(world, model, obj["_direction"], heap)
+    tr = heap[obj["_transformer"].oid]
+    M = np.eye(4)
+    for i in range(3):
+        for j in range(3): M[i, j] = conc(world, model, tr["$A"][i][j], heap)
+        M[i, 3] = conc(world, model, tr["$b"][i], heap)
+    if not np.array_equal(M, np.eye(4)):
+        b._transformer._current_transform._set_matrix(M)
+    return b, cap
+
+
+def observe_builder(b):
+    return {"position": b._current_axes, "distance_mode": b._distance_mode, "params": dict(b._current_params),
+            "state": observe_state(b._state), "params_shared": b._current_params is b._state._current_params}
+
+
+def expected_builder(world, model, heap, g):
+    obj = heap[g.oid]
+    return {"position": conc(world, model, obj["_current_axes"], heap), "distance_mode": conc(world, model, obj["_distance_mode"], heap),
+            "params": conc(world, model, obj["_current_params"], heap), "state": expected_state(world, model, heap, obj["_state"])}
+
+
+def expected_blocks(world, model, log, heap):
+    from specs.common import words_of
+    out = []
+    for g, ev in log:
+        if ev[0] != "emit" or not vc.c_bool(model, g): continue
+        s = ev[1]
+        cmds = [conc(world, model, c, heap) for c in s.cmds]
+        words = {}
+        for l, wg, v in words_of(s.params):
+            if vc.c_bool(model, wg): words[l] = conc(world, model, v, heap)
+        out.append({"cmds": cmds, "words": words})
+    return out
+
+
+def compare_blocks(exp, lines):
+    from specs.lexer import lex_line
+    bad = []
+    if len(exp) != len(lines): return [f"emitted {len(lines)} lines, symbolic log has {len(exp)} blocks: {lines!r}"]
+    for e, l in zip(exp, lines):
+        got = lex_line(l)
+        def canon(c): return c.replace("G0", "G").replace("M0", "M") if len(c) == 3 and c[1] == "0" else c
+        if [canon(c) for c in e["cmds"]] != [canon(c) for c in got["cmds"]]: bad.append(f"command words {e['cmds']} vs line {l!r}")
+        ew = {k: v for k, v in e["words"].items() if isinstance(v, (int, float))}
+        if set(ew) != set(got["words"]): bad.append(f"address words {sorted(ew)} vs line {l!r}")
+        else:
+            for k in ew:
+                if not vc.same_py(float(ew[k]), got["words"][k], 1e-9) and abs(float(ew[k]) - got["words"][k]) > 1e-9: bad.append(f"word {k}: {ew[k]} vs line {l!r}")
+    return bad
+
+
+def builder_method_replayer(ctx, world, method, g, info, h0, arg_vals, kw_ref, exits, extra=None):
+    def rp(model, obl, cover):
+        b, cap = realize_builder(world, model, h0, g, info)
+        args = [conc(world, model, a, h0) for a in arg_vals]
+        kwargs = conc(world, model, kw_ref, h0) if kw_ref is not None else {}
+        pre = observe_builder(b)
+        out = call_real(getattr(b, method), args, kwargs)
+        lines = b"".join(cap.chunks).decode("utf-8").split("\n")[:-1]
+        post = observe_builder(b)
+        info_ = {"call": f"GCodeBuilder.{method}({', '.join([repr(a) for a in args] + [f'{k}={v!r}' for k, v in kwargs.items()])})",
+                 "pre_state": jsonable(pre), "observed": [out[0], jsonable(out[1]) if out[0] == "return" else f"{out[1]}: {out[2]}"],
+                 "emitted_lines": lines, "post_state": jsonable(post)}
+        act = active_exit(model, exits)
+        if len(act) != 1:
+            info_.update(agrees=False, reproduced=False, detail=f"{len(act)} symbolic exits active under the model (expected exactly 1)")
+            return info_
+        e = act[0]
+        bad = []
+        if not outcome_matches(world, out, e): bad.append(f"outcome: symbolic {e.kind}:{e.payload if e.kind == 'raise' else ''} real {out[0]}:{out[1] if out[0] == 'raise' else ''}")
+        post.pop("params_shared", None)
+        bad += diff_dicts(expected_builder(world, model, e.heap, g), post)
+        bad += compare_blocks(expected_blocks(world, model, e.log, e.heap), lines)
+        info_["symbolic_exit"] = f"{e.kind}:{e.payload if e.kind == 'raise' else ''} @{e.where}"
+        info_["agrees"] = not bad
+        info_["detail"] = "; ".join(bad[:6])
+        info_["reproduced"] = (not bad) and (obl.exit is None or obl.exit is e)
+        if extra is not None: extra(model, obl, b, lines, info_)
+        return info_
+    return rp
